@@ -98,6 +98,12 @@ def selectors(tier, layer):
                 for kind in ('child', 'last-child'):
                     out.append((S.cx(S.cp(None, ('nth', kind, a, b, lst, None))),))
             out.append((S.cx(S.cp(S.T('b'), ('nth', 'child', a, b, OF_S['.c'], spellings(a, b)[-2]))),))
+        # several positional pseudo-classes in one compound: each must hold on its own (a conjunction, never merged)
+        tiny = [(0, 1), (0, 2), (2, 0), (2, 1), (-1, 2), (1, 2)]
+        for (a1, b1), (a2, b2) in itertools.product(tiny, repeat=2):
+            out.append((S.cx(S.cp(None, ('nth', 'child', a1, b1, None, None), ('nth', 'last-child', a2, b2, None, None))),))
+            out.append((S.cx(S.cp(None, ('nth', 'child', a1, b1, None, None), ('nth', 'child', a2, b2, None, None))),))
+            out.append((S.cx(S.cp(None, ('nth', 'of-type', a1, b1, None, None), ('nth', 'child', a2, b2, OF_S['.c'], None))),))
     _CACHE[key] = out
     return out
 
